@@ -111,7 +111,7 @@ CHECKS["C15"] = {
     "technique": "bounded-exhaustive differential enumeration over queries x documents x entry points",
 }
 CHECKS["C16"] = {
-    "text": "Iterator part: 10 queries x 6 sharing configurations (same compiled query / two compilations / two environments; same or different documents; 2-3 live iterators): ALL interleavings of the first 5 (k=2) / 3 (k=3) next() calls of each iterator (7 / 4 in thorough), each schedule replayed on fresh iterators and compared item by item with the solitary run, plus every single close()/drop point for k=2. Thread part: 9 two-thread harnesses on shared query/environment objects run on real threads under a cooperative scheduler (sys.settrace line events in package code are scheduling points, one baton, cooperative Lock/RLock): all schedules with <=1 preemption (quick, ~29 000 executions) / <=2 (thorough, capped per harness); each thread must observe its sequential result.",
+    "text": "Iterator part: 10 queries x 6 sharing configurations (same compiled query / two compilations / two environments; same or different documents; 2-3 live iterators): ALL interleavings of the first 5 (k=2) / 3 (k=3) next() calls of each iterator (7 / 4 in thorough), each schedule replayed on fresh iterators and compared item by item with the solitary run, plus every single close()/drop point for k=2. Thread part: 15 two-thread harnesses on shared query/environment objects run on real threads under a cooperative scheduler (sys.settrace line events in package code are scheduling points, one baton, cooperative Lock/RLock): all schedules with <=1 preemption (quick, ~29 000 executions) / <=2 (thorough, capped per harness); each thread must observe its sequential result and the shared objects must be intact afterwards. Compile-only part: two threads compile on one shared environment (same text already compiled; thorough also two texts, a fresh environment, a filter text): ALL schedules with <=2 preemptions (56 914 in quick), sliced over 16 shards.",
     "ref": "DESIGN.md section 5, C16",
     "note": "Thread schedules at source-line granularity under the GIL; interleavings inside one line or inside the C regex engine are not covered. Preemption bound completed is reported per harness.",
     "technique": "stateless exploration of schedules of the real code: all next() interleavings; controlled-scheduler thread exploration with iterative preemption bounding",
